@@ -124,6 +124,9 @@ func (c *c01) startReader(start int64, committed bool, latest bool) {
 		for {
 			m, off, ts, ep, err := r.ReadMessage(ctx, buf)
 			if err != nil {
+				if ctx.Err() == nil && !log.IsClosed() {
+					h.fail("C01/live", "C01/live/error", "live reader %d (start=%d committed=%v) ended with %q after offset %d although it was not cancelled and the log is open", lr.id, start, committed, err, lr.last)
+				}
 				return
 			}
 			if eff == -1 {
